@@ -28,6 +28,7 @@ class Variant:
     control: bool = False  # run in the quick tier as the rule's positive control
     note: str = ""
     prop: str = ""
+    diff: str = ""  # name of a unified diff under corpus/twins applied instead of `edits`
 
 
 @lru_cache(maxsize=1)
@@ -39,8 +40,77 @@ def base_sources() -> dict:
     return dict(_base())
 
 
+TWINS = os.path.join(os.path.dirname(CORPUS), "twins")
+
+
+def apply_unified_diff(src: dict, text: str, name: str = "") -> None:
+    """Apply a `git diff` (unified format) to the in-memory sources; every context and
+    removed line must match exactly."""
+    cur = None
+    lines: list[str] = []
+    out: list[str] = []
+    pos = 0
+
+    def flush():
+        nonlocal cur, lines, out, pos
+        if cur is not None:
+            out += lines[pos:]
+            src[cur] = "".join(out)
+        cur, lines, out, pos = None, [], [], 0
+
+    it = text.splitlines(keepends=True)
+    i = 0
+    while i < len(it):
+        ln = it[i]
+        if ln.startswith("--- "):
+            flush()
+            new = it[i + 1]
+            assert new.startswith("+++ "), f"{name}: malformed diff header"
+            path = new[4:].strip()
+            path = path[2:] if path.startswith("b/") else path
+            if not path.startswith("panoptica/"):
+                i += 2
+                continue  # files outside the analysed package
+            cur = path
+            lines = src.get(cur, "").splitlines(keepends=True)
+            out, pos = [], 0
+            i += 2
+            continue
+        if ln.startswith("@@") and cur is not None:
+            start = int(ln.split()[1].split(",")[0][1:])
+            start = max(start - 1, 0) if lines else 0
+            out += lines[pos:start]
+            pos = start
+            i += 1
+            while i < len(it) and not it[i].startswith(("@@", "diff --git", "--- ")):
+                h = it[i]
+                if h.startswith("\\"):
+                    i += 1
+                    continue
+                tag, body = h[:1], h[1:]
+                if tag in (" ", "-"):
+                    if pos >= len(lines) or lines[pos].rstrip("\n") != body.rstrip("\n"):
+                        raise ValueError(f"twin {name}: hunk does not apply at {cur}:{pos + 1}")
+                    if tag == " ":
+                        out.append(lines[pos])
+                    pos += 1
+                elif tag == "+":
+                    out.append(body)
+                i += 1
+            continue
+        i += 1
+    flush()
+
+
 def apply(v: Variant) -> dict:
     src = base_sources()
+    if v.diff:
+        with open(os.path.join(TWINS, v.diff)) as fh:
+            apply_unified_diff(src, fh.read(), v.diff)
+        for path, text in src.items():
+            if path.endswith(".py"):
+                ast.parse(text)
+        return src
     for path, old, new in v.edits:
         if path not in src:
             raise KeyError(f"variant {v.vid}: no file {path}")
@@ -64,6 +134,12 @@ def for_property(prop: str) -> list[Variant]:
             _REG[prop] = []
             return []
         vs = list(getattr(mod, "VARIANTS", []))
+        # independent behaviour-preserving refactorings (written without knowledge of the
+        # checks): every property's check must be silent on each of them
+        if os.path.isdir(TWINS):
+            for fn in sorted(os.listdir(TWINS)):
+                if fn.endswith(".diff"):
+                    vs.append(Variant(f"{prop}-x-{fn[:-5]}", "", "twin", [], diff=fn, note="independent refactoring"))
         for v in vs:
             v.prop = prop
         ids = [v.vid for v in vs]
